@@ -25,7 +25,7 @@ Owned(P, s) ==
   CASE Prop = "C01" -> (op \in Arith \cup {"gradient1"} \/ PyArith(P, s)) /\ RankOfStep(P, s) <= 1     \* bare numbers and numbers inside the generic container
     [] Prop = "C02" -> (op \in Arith \cup {"to_d1", "gradient1", "gradient2", "manifold"} \/ PyArith(P, s)) /\ (RankOfStep(P, s) = 2 \/ op \in {"gradient2", "manifold"})
     [] Prop = "C03" -> op \in {"add", "sub", "mul", "div", "rem", "eq", "ne", "to_new_vars", "union_l", "union_r", "ptr_eq", "vars_cmp"} /\ ~AnyWrapped(P, s)
-    [] Prop = "C17" -> op \in {"gradient1", "gradient2", "manifold", "mul"}
+    [] Prop = "C17" -> op \in {"gradient1", "gradient2", "manifold", "mul", "union_l", "union_r", "to_new_vars"}      \* (re-alignment is judged by reading the result back by name)
     [] Prop = "C18" -> op \in {"wrap", "unwrap", "to_n", "to_f64", "to_d1", "to_d2", "set_order", "set_order_clone", "py"} \/ AnyWrapped(P, s)
     [] Prop = "C19" -> op \in {"lt", "le", "gt", "ge", "eq", "ne", "abs", "rem", "sum", "zero", "one", "add", "mul", "signum", "is_positive", "is_negative", "is_zero", "abs_sub"}
                        \/ (op = "py" /\ P.steps[s].ins.name \in (DOMAIN PyCmp) \cup {"__abs__"})      \* the comparisons as Python reaches them
